@@ -369,7 +369,7 @@ ADDENDA = {
     'C01': ' Session ledger additions: UDH-segmented messages; messages queued while the session is winding down after a drop; a message '
            'no Sender task reported is the known cancelled-sender finding only if the task holding it was cancelled, not if it ended of '
            'its own accord. Regenerated obligation handle_response_step_order. Round 8: sessions with a correlator that persists to files and texts with lone surrogates / astral characters sent with error_handling=replace. Round 9: every submit_sm of a message with a text outside the GSM alphabet is read on the wire (UCS2, also when the same object is sent again after a failed transmission); stray responses to submit_sm whose transmission had failed. The await points of _send_data are regenerated from the source (theorem send_data_await_points); directed sessions in which a response is processed while the put of its own request is suspended (plain and segmented).',
-    'C02': ' Regenerated obligations: handle_request_step_order, get_delivery_step_order (Gen/Site.lean). Round 8: (no addition; the jsonutils and stale-status changes are caught by the restart histories and the reference-reuse cases). Round 9: registered_delivery varied over every receipt-requesting value; regenerated obligation response_handler_awaits_directly.',
+    'C02': ' Regenerated obligations: handle_request_step_order, get_delivery_step_order (Gen/Site.lean). Round 8: (no addition; the jsonutils and stale-status changes are caught by the restart histories and the reference-reuse cases). Round 9: registered_delivery varied over every receipt-requesting value; regenerated obligation response_handler_awaits_directly. The await points of put_delivery / get_delivery are regenerated from the source (theorem delivery_operations_await_only_the_sweep).',
     'C04': ' Foreign PDUs also carry absolute validity periods with every quarter-hour offset of both signs and relative schedule times; '
            'PDUs are decoded after PDUs the library refuses (decoder keeps no state). Round 8: the wire of the real Sender for messages it segments, with the 0..255 reference generator standing at 253..255 and 0 (session_segments_case of C08). Round 9: large PDUs (17 .. 70 KB) under back-pressure judged by the C15 monitor.',
     'C06': ' Whole queues also run with a sequence generator that passes the largest SMPP sequence number in the middle of the queue. Regenerated obligation sender_loop_step_order (Gen/Site dequeueLoop: loop nesting and order of the Sender loop). Round 8: (log.py runs at every level, see C07).',
